@@ -96,3 +96,30 @@ extern "C" void h_is_base()
     vout("b", b);
     END();
 }
+
+// units that are not owned by any model (never added, or removed again): every query returns normally
+extern "C" void h_unowned()
+{
+    auto u = Units::create("u");
+    auto v = Units::create("v");
+    int e = vin(0, 2);
+    u->addUnit(refName(R0), 0, e == 0 ? -1.0 : e == 1 ? 1.0 : 2.0, 1.0);
+    u->addUnit(refName(R0B));
+    v->addUnit(refName(R1));
+    bool d = u->isDefined();
+    NO_UNCAUGHT_AT("Units::isDefined (unowned)");
+    bool ri = u->requiresImports();
+    NO_UNCAUGHT_AT("Units::requiresImports (unowned)");
+    bool b = u->isBaseUnit();
+    NO_UNCAUGHT_AT("Units::isBaseUnit (unowned)");
+    bool c = Units::compatible(u, v);
+    NO_UNCAUGHT_AT("Units::compatible (unowned)");
+    double f1 = Units::scalingFactor(u, v);
+    NO_UNCAUGHT_AT("Units::scalingFactor (unowned)");
+    double f2 = Units::scalingFactor(u, v, false);
+    NO_UNCAUGHT_AT("Units::scalingFactor without compatibility check (unowned)");
+    bool q = Units::equivalent(u, u);
+    NO_UNCAUGHT_AT("Units::equivalent (unowned)");
+    vout("d", d); vout("ri", ri); vout("b", b); vout("c", c); vout("f1zero", f1 == 0.0); vout("f2zero", f2 == 0.0); vout("q", q);
+    END();
+}
